@@ -72,6 +72,7 @@ func C01(c *run.Ctx) int {
 	})
 	c01PtrArgs(c, []string{"spirv"})
 	c01ConstBits(c, []string{"spirv"})
+	c01SemTemplates(c, []string{"spirv"})
 	return c.Finish("programs from the type-directed wgen generator (known-bad constructs gated off) x boundary-biased inputs x SPIR-V option sets; "+
 		"plus a grid of calls passing two or three pointers at once (whole variables, array elements with constant and run-time index, struct members; identical pointee types, different roots) whose effect is computed here, and modules of 12-20 literals (both zeros, neighbours in the last bit, equal numbers with different bits across types) whose bit patterns are compared exactly; "+
 		"each compiled by naga, executed by the spvx interpreter laid out by the module's own decorations and compared leaf-by-leaf with the wref WGSL reference evaluator; "+
